@@ -6,6 +6,7 @@ names="$@"; [ -z "$names" ] && names=$(ls seeded)
 base=$(mktemp -d /tmp/vf_sd_XXXXXX); trap 'rm -rf "$base"' EXIT
 git -C /repo archive HEAD | tar -x -C $base
 for n in $names; do
+  grep -q neutralised_by seeded/$n/meta.json && { echo "$n: neutralised / superseded by a later /repo fix (skipped)"; continue; }
   d=$base.$n; cp -r $base $d
   ( cd $d && git apply /verif/seeded/$n/patch.diff 2>/dev/null ) || { echo "$n: PATCH DOES NOT APPLY"; rm -rf $d; continue; }
   mkdir -p $d/SEED; cp -r seeded/$n/* $d/SEED/
